@@ -33,6 +33,9 @@ func freeAddr() string {
 // shipped transports: every node's run ends (its await cntr = NUM_NODES held) and every node reads NUM_NODES.
 func TestC16ShCounter(t *testing.T) {
 	rapid.Check(t, func(t *rapid.T) {
+		if vstat.OverBudget() {
+			return
+		}
 		vstat.Case()
 		n := rapid.IntRange(1, 5).Draw(t, "nodes")
 		rpc := rapid.Bool().Draw(t, "rpc-transport")
